@@ -175,6 +175,7 @@ type checkOpts struct {
 
 type checkResult struct {
 	violations []string
+	lines      []string
 	failedObls []*Obligation
 	allObls    []*Obligation
 	known      int
@@ -196,9 +197,32 @@ func cmdCheck(args []string) int {
 		useCache = false
 	}
 	cacheDir = filepath.Join(o.verif, ".cache")
+	// A first pass decides everything; if it reports violations the check is repeated once with
+	// doubled time budgets (verdicts of the first pass are cached), so that a solver or Houdini
+	// time-out under machine load is not reported as a violation. Only the final pass prints.
+	o.quiet = true
 	r := runCheck(o)
+	if len(r.violations) == 0 {
+		for _, l := range r.lines {
+			fmt.Println(l)
+		}
+		return r.exit
+	}
+	o.quiet = false
+	timeScale = 2
+	if o.timeout == 0 {
+		o.timeout = 10
+		if o.tier == "thorough" {
+			o.timeout = 120
+		}
+	}
+	o.timeout *= 2
+	r = runCheck(o)
 	return r.exit
 }
+
+// timeScale multiplies the inner time budgets (Houdini filtering) on the second pass.
+var timeScale = 1
 
 func runCheck(o checkOpts) *checkResult {
 	t0 := time.Now()
@@ -214,6 +238,7 @@ func runCheck(o checkOpts) *checkResult {
 		seed, _ = strconv.Atoi(s)
 	}
 	say := func(format string, a ...interface{}) {
+		res.lines = append(res.lines, fmt.Sprintf(format, a...))
 		if !o.quiet {
 			fmt.Printf(format+"\n", a...)
 		}
